@@ -50,6 +50,20 @@ func projParas(ps []control.Paragraph) interface{} {
 }
 
 var entries = map[string]entry{
+	// two version texts separated by a blank: parsed and COMPARED (the comparison is a call like any other: total,
+	// deterministic, free of shared state - also when it is the first thing a process does, on many goroutines at once)
+	"compare": func(in []byte) (string, string, bool) {
+		parts := strings.SplitN(string(in), " ", 2)
+		if len(parts) != 2 {
+			return "error", "", true
+		}
+		a, err1 := version.Parse(parts[0])
+		b, err2 := version.Parse(parts[1])
+		if err1 != nil || err2 != nil {
+			return "error", "", true
+		}
+		return "value", dg([]int{version.Compare(a, b), version.Compare(b, a)}), true
+	},
 	"version": func(in []byte) (string, string, bool) {
 		v, err := version.Parse(string(in))
 		if err != nil {
@@ -179,6 +193,45 @@ const otherDsc = "Format: 1.0\nSource: zz\nBinary: z1\nArchitecture: all\nVersio
 const otherChanges = "Format: 1.8\nSource: zz\nBinary: z1\nArchitecture: all\nVersion: 9\nDistribution: experimental\nUrgency: high\nMaintainer: Z <z@z>\nChanged-By: Z <z@z>\nCloses: 9\nChanges:\n zz\nFiles:\n 00000000000000000000000000000000 7 misc extra zz_9.dsc\n"
 
 var keptEntries = map[string]entry{
+	// the caller's own *bufio.Reader: handed to Parse, re-targeted by the caller (Reset) and handed to Parse again, with
+	// an unrelated Parse in between - the reader is the caller's, and the second answer is the first
+	"changelog": func(in []byte) (string, string, bool) {
+		own := bufio.NewReader(bytes.NewReader(in))
+		if _, err := changelog.Parse(own); err != nil {
+			return "error", "", true
+		}
+		var died int32
+		others := func() {
+			// unrelated parses, many at once (whatever the library pools is in circulation then)
+			var wg sync.WaitGroup
+			for i := 0; i < 32; i++ {
+				wg.Add(1)
+				go func() {
+					defer wg.Done()
+					defer func() {
+						if r := recover(); r != nil {
+							atomic.StoreInt32(&died, 1)
+						}
+					}()
+					for j := 0; j < 4; j++ {
+						changelog.Parse(strings.NewReader(seedsC18["changelog"][2]))
+					}
+				}()
+			}
+			wg.Wait()
+		}
+		others()
+		own.Reset(bytes.NewReader(in))
+		others()
+		if atomic.LoadInt32(&died) != 0 {
+			return "panic", "a parse running beside others panicked", true
+		}
+		es, err := changelog.Parse(own)
+		if err != nil {
+			return "error", "", len(es) == 0
+		}
+		return "value", dg(idsOf(es)), true
+	},
 	"dsc": func(in []byte) (string, string, bool) {
 		d := &control.DSC{Filename: "/x/y.dsc"}
 		if err := control.Unmarshal(d, bytes.NewReader(in)); err != nil {
@@ -244,6 +297,7 @@ var pgpPrefixed = []string{
 }
 
 var seedsC18 = map[string][]string{
+	"compare":    {"1.0~rc1 1.0", "1.0z 1.0y", "2:1.0+b1-1 2:1.0-1", "1.0.a 1.0+a", "1:2.3.4+dfsg-1~bpo9+1 1:2.3.4+dfsg-1"},
 	"version":    {"1:2.3.4+dfsg-1~bpo9+1", "1.0", "0:0-0", "2.36.1-8+deb11u1"},
 	"arch":       {"amd64", "linux-any", "any", "all", "musl-linux-armhf"},
 	"dependency": {"foo (>= 1.0) [amd64 i386] <stage1 !cross> | bar:any, ${misc:Depends}, baz [!hurd-any]", "a, b | c"},
@@ -461,7 +515,13 @@ func runConcurrent(vec J, out *Writer) {
 		for c := 0; c < nc; c++ {
 			name := names[r.Intn(len(names))]
 			in := mutateBytes(r, seedsC18[name][r.Intn(len(seedsC18[name]))])
-			if r.Intn(10) == 0 {
+			if c == 0 {
+				// the first call of every goroutine - the first thing this process does - is a comparison of two well-formed
+				// versions: whatever a package builds lazily is built while all of them ask for it
+				name = "compare"
+				in = seedsC18[name][g%len(seedsC18[name])]
+			}
+			if r.Intn(10) == 0 && c > 0 {
 				in = bigInput(r, in, 2000+r.Intn(20000))
 			}
 			j := job{name, in, dg(in)}
